@@ -164,6 +164,8 @@ func init() {
 			var ev []M
 			log := func(m M) { mu.Lock(); ev = append(ev, m); mu.Unlock() }
 			callHi := map[string]int64{}
+			cids := map[string]int{}
+			tns := map[string]int{}
 			constructedLo := time.Now().UnixNano()
 			rep, err := m3.NewReporter(m3.Options{HostPorts: addrs, Service: "svc\x00x", Env: "t=e", CommonTags: map[string]string{"region": "r"},
 				Protocol: proto, MaxQueueSize: qcap, MaxPacketSizeBytes: int32(maxPacket), HistogramBucketTagPrecision: uint(1 + ci%9)})
@@ -194,7 +196,12 @@ func init() {
 				}
 				usedKey[key] = true
 				ukmu.Unlock()
-				log(M{"e": "call", "t": t, "op": "report", "name": hx(name), "kind": k, "v": vs, "tags": hexPairsMap(tags), "bucket": kind == "bucket"})
+				mu.Lock()
+				tns[t]++
+				cids[key] = len(cids) + 1
+				myCid := cids[key]
+				ev = append(ev, M{"e": "call", "t": t, "op": "report", "cid": myCid, "tn": tns[t], "name": hx(name), "kind": k, "v": vs, "tags": hexPairsMap(tags), "bucket": kind == "bucket"})
+				mu.Unlock()
 				switch kind {
 				case "counter":
 					h.(tally.CachedCount).ReportCount(iv)
@@ -209,7 +216,7 @@ func init() {
 				mu.Lock()
 				callHi[key] = hi
 				mu.Unlock()
-				log(M{"e": "ret", "t": t, "op": "report", "name": hx(name), "v": vs})
+				log(M{"e": "ret", "t": t, "op": "report", "cid": myCid, "name": hx(name), "v": vs})
 				return true
 			}
 			// the very first report, immediately after construction
@@ -217,8 +224,13 @@ func init() {
 			log(M{"e": "scn", "x": ci + 1, "scenario": fmt.Sprintf("free-%d", ci), "producers": ngo, "nrep": nrep, "closers": 1, "flushers": 1, "qcap": qcap, "max_packet": maxPacket, "dests": dests})
 			report("main", "counter", first, "first", map[string]string{"p": "q"}, 424242, 0)
 			var wg sync.WaitGroup
+			// one histogram bucket handle shared by all goroutines (what concurrent report passes over one histogram do)
+			sharedTags := map[string]string{"who": "all"}
+			sharedBucket := rep.AllocateHistogram("shared.hist", sharedTags, tally.ValueBuckets{1, 2}).ValueBucket(1, 2)
+			sharedWant := map[string]string{"who": "all", "bucketid": "0001", "bucket": renderValueBound(1, prec) + "-" + renderValueBound(2, prec)}
 			var bucketSeqs []M
 			var bsmu sync.Mutex
+			startAll := make(chan struct{})
 			for g := 0; g < ngo; g++ {
 				g := g
 				grng := rand.New(rand.NewSource(cm.seed*1000 + int64(ci)*10 + int64(g)))
@@ -227,6 +239,10 @@ func init() {
 					defer wg.Done()
 					t := fmt.Sprintf("g%d", g+1)
 					left := nrep
+					<-startAll // all goroutines hit the shared handle at the same time
+					for i := 0; i < 150; i++ {
+						report(t, "bucket", sharedBucket, "shared.hist", sharedWant, int64(1000000*(g+1)+i), 0)
+					}
 					for left > 0 {
 						name := c13Names[grng.Intn(len(c13Names))] + fmt.Sprintf(".%d", g) // a name belongs to one goroutine
 						if grng.Intn(3) == 0 {
@@ -322,12 +338,13 @@ func init() {
 					}
 				}()
 			}
+			close(startAll)
 			closeIt := func() {
 				log(M{"e": "call", "t": "main", "op": "close"})
 				cerr := rep.Close()
 				// everything sent before Close returned is already queued at the sinks (loopback sends are synchronous)
 				time.Sleep(3 * time.Millisecond)
-				logEmits(cols, compact, common, constructedLo, callHi, &mu, log)
+				logEmits(cols, compact, common, constructedLo, callHi, cids, &mu, log)
 				alive := reporterGoroutinesAlive()
 				log(M{"e": "ret", "t": "main", "op": "close", "err": cerr != nil, "alive": alive && false})
 			}
@@ -344,7 +361,7 @@ func init() {
 			log(M{"e": "call", "t": "main2", "op": "close"})
 			log(M{"e": "ret", "t": "main2", "op": "close", "err": err2 != nil, "alive": false})
 			time.Sleep(15 * time.Millisecond)
-			logEmits(cols, compact, common, constructedLo, callHi, &mu, log)
+			logEmits(cols, compact, common, constructedLo, callHi, cids, &mu, log)
 			log(M{"e": "end", "pending": int(m3.VerifStateOf(rep).Pending), "qlen": 0, "done": true})
 			for _, c := range cols {
 				c.close()
@@ -387,7 +404,7 @@ func renderDurationBound(d time.Duration) string {
 	return d.String()
 }
 
-func logEmits(cols []*sinkCollector, compact bool, commonWant map[string]string, constructedLo int64, callHi map[string]int64, mu *sync.Mutex, log func(M)) {
+func logEmits(cols []*sinkCollector, compact bool, commonWant map[string]string, constructedLo int64, callHi map[string]int64, cids map[string]int, mu *sync.Mutex, log func(M)) {
 	for si, c := range cols {
 		for _, d := range c.take() {
 			b, _, ok, why := decodeBatch(d, compact)
@@ -414,6 +431,7 @@ func logEmits(cols []*sinkCollector, compact bool, commonWant map[string]string,
 					rel := "ok"
 					mu.Lock()
 					hi, seen := callHi[key]
+					cid := cids[key]
 					mu.Unlock()
 					switch {
 					case m.Timestamp < constructedLo:
@@ -421,7 +439,7 @@ func logEmits(cols []*sinkCollector, compact bool, commonWant map[string]string,
 					case seen && m.Timestamp > hi:
 						rel = "after-return"
 					}
-					mets = append(mets, M{"name": hx(m.Name), "kind": k, "v": v, "tags": hexPairsTags(m.Tags), "ts": rel})
+					mets = append(mets, M{"cid": cid, "name": hx(m.Name), "kind": k, "v": v, "tags": hexPairsTags(m.Tags), "ts": rel})
 				}
 				ev["mets"] = mets
 			}
